@@ -776,7 +776,7 @@ def emit(ctx, pending, cap=25):
     n = {}
     for sig, detail, fi in sorted(pending, key=lambda p: p[0] == 'hour0-unresolved'):
         n[sig] = n.get(sig, 0) + 1
-        if n[sig] <= cap:
+        if n[sig] <= cap or ctx.is_known(sig, common.input_key(fi)):
             dtres.report(ctx, 'property', sig, detail, failing_input=fi, property_fails=True)
     for sig, k in n.items():
         ctx.extra['failures:' + sig] = ctx.extra.get('failures:' + sig, 0) + k
@@ -1043,6 +1043,7 @@ def pipeline(ctx, variant):
                     bad = 'values %r, expected %r of type %s' % (got, expected, want_type)
         if bad is None:
             ctx.nontriv(('pipe', q))
+            ctx.passed(common.input_key({'culture': culture, 'query': q, 'reference': list(ref)}))
             continue
         hour0 = expected[0][0].split('T')[1].startswith('00') and ('no resolution' in bad)
         # finding afternoon-12: `12 <plain pm designator>` comes back with both readings (12:00 and 00:00)
